@@ -167,6 +167,40 @@ let handle (x : sx) : ostring =
        | Ok f -> "OK " ^ OS.concat " ; " (List.map ocaml_string f)
        | Rtamt -> "RTAMT"
        | Crash -> "CRASH")
+  | L [A "rmin"; L ex; e] ->
+      (* C15: an AST of the parser model -> its rendering with the needed parentheses (+ extra pairs at the paths ex), what the model
+         parses that text to, the dump of the AST, and the minimal rendering with each needed pair removed *)
+      let unit_of = function "s" -> Some KS | "ms" -> Some KMs | "us" -> Some KUs | "ns" -> Some KNs | _ -> None in
+      let itime_of = function
+        | L [A "lit"; A s; A u] -> ILit (coq_string s, unit_of u)
+        | L [A "id"; A s; A u] -> IId (coq_string s, unit_of u)
+        | _ -> failwith "itime" in
+      let iv_of = function A "-" -> None | L [a; b] -> Some (itime_of a, itime_of b) | _ -> failwith "interval" in
+      let un_of = function "neg" -> UNeg | "not" -> UNot | "always" -> UAlways | "eventually" -> UEv | "historically" -> UHist | "once" -> UOnce
+        | "prev" -> UPrev | "next" -> UNext | "sprev" -> USPrev | "snext" -> USNext | _ -> failwith "unop" in
+      let f1_of = function "abs" -> FAbs | "sqrt" -> FSqrt | "exp" -> FExp | "ln" -> FLn | "rise" -> FRise | "fall" -> FFall | _ -> failwith "fun1" in
+      let f2_of = function "pow" -> FPow | "log" -> FLog | _ -> failwith "fun2" in
+      let bin_of = function "mul" -> BMul | "div" -> BDiv | "add" -> BAdd | "sub" -> BSub
+        | "leq" -> BCmp KLeq | "geq" -> BCmp KGeq | "lt" -> BCmp KLt | "gt" -> BCmp KGt | "eq" -> BCmp KEq | "neq" -> BCmp KNeq
+        | "until" -> BUntil | "unless" -> BUnless | "since" -> BSince | "and" -> BAnd | "or" -> BOr | "implies" -> BImplies | "iff" -> BIff | "xor" -> BXor
+        | _ -> failwith "binop" in
+      let rec ex_of_sx = function
+        | L [A "id"; A s] -> EId (coq_string s)
+        | L [A "lit"; A s] -> ELit (coq_string s)
+        | L [A "un"; A o; iv; a] -> EUn (un_of o, iv_of iv, ex_of_sx a)
+        | L [A "f1"; A f; a] -> EFun1 (f1_of f, ex_of_sx a)
+        | L [A "f2"; A f; a; b] -> EFun2 (f2_of f, ex_of_sx a, ex_of_sx b)
+        | L [A "bin"; A o; iv; a; b] -> EBin (bin_of o, iv_of iv, ex_of_sx a, ex_of_sx b)
+        | _ -> failwith "sexpr" in
+      let e = ex_of_sx e in
+      let ex = List.map (fun p -> List.map nat_of_sx (lst p)) ex in
+      let hex s = "x" ^ OS.concat "" (List.map (fun c -> Printf.sprintf "%02x" (Char.code c)) (List.init (OS.length s) (OS.get s))) in
+      let txt = run_render ex e in
+      let model = (match run_parse true [] KS (coq_string (ocaml_string txt ^ ";")) with
+                   | Ok f -> "OK " ^ OS.concat " ; " (List.map ocaml_string f) | Rtamt -> "RTAMT" | Crash -> "CRASH") in
+      Printf.sprintf "TEXT %s | WF %s | AST %s | MODEL %s | DROPS %s" (hex (ocaml_string txt)) (show_bool (run_wf e))
+        (match run_dump KS e with Some d -> ocaml_string d | None -> "NONE") model
+        (OS.concat " " (List.map (fun t -> hex (ocaml_string t)) (run_min_drops e)))
   | L [A (("dn" | "pastdn") as cmd); pk; f; L w] ->
       let pk = pk_of_sx pk and f = formula_of_sx f in
       let f = if cmd = "pastdn" then run_pastify true f else f in
